@@ -18,7 +18,7 @@ import tempfile
 HERE = os.path.dirname(os.path.dirname(os.path.abspath(__file__)))
 sys.path.insert(0, HERE)
 from harness import core  # noqa: E402
-from harness.checks import c01, c02, c06, c07, c11, c12, c13, c14  # noqa: E402
+from harness.checks import c01, c02, c06, c07, c10, c11, c12, c13, c14  # noqa: E402
 
 JAVA = ["java", "-XX:+UseParallelGC", "-Xmx6g", "-cp", core.JAVA_CP, "tlc2.TLC"]
 
@@ -47,6 +47,10 @@ MUTANTS = [
     #  any monotone re-parametrisation; C13 is "agreement with the documented formula", decided by the judge)
     ("BootLoop: every row evaluated on the FIRST sample", "MC_C14", c14.MC_CFG.format(MaxN=3),
      "BootLoop.tla", "rows' = Append(rows, MetricOf(produced[j + 1], thr))", "rows' = Append(rows, MetricOf(produced[1], thr))"),
+    ("System: assigning easy counts to one object changes every object of the store", "MC_C10",
+     c10.MC_CFG.format(MaxCalls=2), "System.tla",
+     "  /\\ store' = [store EXCEPT ![h] = [@ EXCEPT !.ep = ep, !.en = en]]\n  /\\ UNCHANGED arr",
+     "  /\\ store' = [k \\in DOMAIN store |-> [store[k] EXCEPT !.ep = ep, !.en = en]]\n  /\\ UNCHANGED arr"),
     ("GroupScores: neg labels not carried through the sort", "MC_C12", c12.MC_CFG.format(Inputs="InQuick", MaxSteps=2),
      "GroupScores.tla", "NewG(p, n, sc, ec) == GObj(SortPairs(p), SortPairs(n), sc, ec,",
      "NewG(p, n, sc, ec) == GObj(SortPairs(p), [i \\in DOMAIN n |-> <<SortPairs(n)[i][1], n[i][2]>>], sc, ec,"),
